@@ -18,19 +18,31 @@ fn check_relations_assignment(context: &CheckerContext) -> GenericResult<()> {
     (0_usize..)
         .zip(context.problem.plan.relations.as_ref().map_or([].iter(), |relations| relations.iter()))
         .try_for_each(|(idx, relation)| {
+            let relation_ids = relation.jobs.iter().collect::<HashSet<_>>();
             let tour = get_tour_by_vehicle_id(&relation.vehicle_id, relation.shift_index, &context.solution);
-            // NOTE tour can be absent for tour relation
+            // NOTE tour can be absent for tour relation, but then its jobs must not be served by another tour
             let tour = if let Ok(tour) = tour {
                 tour
             } else {
                 return match relation.type_field {
-                    RelationType::Any => Ok(()),
+                    RelationType::Any => {
+                        let has_wrong_assignment = context.solution.tours.iter().any(|tour| {
+                            get_activity_ids(tour)
+                                .iter()
+                                .any(|id| relation_ids.contains(id) && !reserved_ids.contains(id.as_str()))
+                        });
+
+                        if has_wrong_assignment {
+                            Err(format!("relation {idx} has jobs assigned to another tour").into())
+                        } else {
+                            Ok(())
+                        }
+                    }
                     _ => tour.map(|_| ()),
                 };
             };
 
             let activity_ids = get_activity_ids(&tour);
-            let relation_ids = relation.jobs.iter().collect::<HashSet<_>>();
 
             let expected_relation_count = relation_ids.iter().try_fold(0, |acc, job_id| {
                 if let Some(job) = context.get_job_by_id(job_id) {
